@@ -19,6 +19,18 @@ CLAIMED = {
              "checked on the implementation by measurement (runtime.MemStats), not proved.",
         technique="Rocq proof by induction on fuel over an executable decoder model + differential correspondence (extracted OCaml vs Go)",
         design="4 (C12)"),
+    "C13": dict(
+        text="Machine-checked theorems over the executable model of cose.Sign1.Verify / Mac0.Digest (on the CBOR codec model, algorithm "
+             "registries regenerated from the compiled package): no panic for any object/key/payload/AAD; acceptance implies the primitive "
+             "accepted exactly (key, hash of the protected alg, Sig_structure of re-encoded protected header + AAD + effective payload, "
+             "signature of exactly 2n bytes for ECDSA); completeness incl. leading-zero r/s for every coordinate size; MAC tag = HMAC of the "
+             "MAC_structure with key-size check. Tied to the code by ~60k differential cases per quick run (6 algorithms, embedded/detached, "
+             "bit flips of every byte, foreign keys, impossible lengths, algorithm-header variants, CBOR mutations) with stdlib crypto as "
+             "oracle, plus an implementation-only tamper monitor.",
+        note=COMMON_NOTE + "Unforgeability/collision resistance are properties of the primitives and are not claimed; tamper-evidence is "
+             "the contrapositive of C13_exact together with injectivity of the Sig_structure encoding (C11).",
+        technique="Rocq proof (decision-structure exactness, completeness with fixed-width big-endian lemmas) + differential correspondence",
+        design="4 (C13)"),
     "C20": dict(
         text="Machine-checked theorems over the executable model of protocol.parseDirective/parseURLs/cbor.ArrayShift built on the CBOR "
              "decoder model: totality for every instruction list and role, other-role directives yield the zero directive, invariance under "
